@@ -25,7 +25,7 @@ META = {
                "thorough": {"members": "same + nested component", "pause step": "0..8"}},
     "outside": profiles.OUTSIDE + ["non-finite numbers", "file-system failures"],
 }
-REQUIRED_COVERS = {"any": ["stage:never", "stage:paused", "stage:forward", "stage:backward", "subproject-task", "refs-checked", "resimulated", "inject:saved", "empty-lists"]}
+REQUIRED_COVERS = {"any": ["stage:never", "stage:paused", "stage:forward", "stage:backward", "subproject-task", "refs-checked", "resimulated", "inject:saved", "empty-lists", "resumed-after-restore"]}
 
 EXCLUDED = {
     "BaseTask": ["parent_workflow", "additional_work_amount", "additional_task_flag", "actual_work_amount"],
@@ -166,6 +166,21 @@ def roundtrip(p, ctx):
             ctx.fail("C16:reexport-differs:%s" % _path_key(d))
             ctx.notes["differs_at"] = d
         check_refs(C, ctx)
+        # a paused project that was restored continues like the original (FIFO reads the restored state logs)
+        if stage == "paused" and not ctx.fails and not p.get("configure_sub") and p.get("resim", True):
+            from pDESy.model.base_priority_rule import TaskPriorityRuleMode
+
+            kwr = dict(kw, initialize_state_info=False, initialize_log_info=False, task_priority_rule=TaskPriorityRuleMode.FIFO)
+            okm, r1 = ctx.call(M.project.simulate, **kwr)
+            okc, r2 = ctx.call(C.simulate, **kwr)
+            if okm != okc:
+                ctx.fail("C16:resume-after-restore-raised:%s" % (exc_tag(r2) if not okc else "original"))
+            elif okm:
+                kd = diff_dumps(dump(M), dump(restore_family_view(C, M)))
+                if kd is not None:
+                    ctx.fail("C16:resume-after-restore-differs:%s" % short_key(kd))
+                    ctx.notes["resume_differs_at"] = kd
+                ctx.cover("resumed-after-restore")
         # the restored project re-simulates like the original (members use only saved settings)
         if p.get("resim", True) and not ctx.fails:
             okc, r = ctx.call(C.simulate, **kw)
@@ -316,6 +331,8 @@ def obligations(tier, seed):
     for t in fspec["tasks"]:
         t.pop("wprule", None)
     members.append(("prod", fspec, [["w0", 1, 2], ["w1", 1, 2], ["cap0", 0, 2], ["z0", 0, 2]], {"z1": 1, "cap1": 1, "fs0": 1, "fs1": 1}))
+    pf = [ob for ob in profiles.p_facility(thorough) if "1wp2f/fsk=all/solof=0/fixf=None/mixed=0" in ob["name"]][0]
+    members.append(("pairs", pf["cube"]["spec"], [["w0", 2, 6], ["s00", 1, 2], ["f00", 0, 2], ["f11", 1, 2]], {"w1": 1, "cap": 2, "fa0": -1, "a1": -1}))
     members.append(("sub-never", {"tasks": [{"w": "$w0"}, {"w": 1, "subproject": True}], "edges": [[0, 1, 0]], "teams": profiles.layout_workers("shared1", 2), "run": {"max_time": 8}},
                     [["w0", 0, 2]], {"resim": False}))
     members.append(("sub-configured", {"tasks": [{"w": "$w0"}, {"w": 1, "subproject": True}], "edges": [[0, 1, 0]], "teams": profiles.layout_workers("shared1", 2), "run": {"max_time": 8}},
